@@ -16,6 +16,7 @@ type UnitResult struct {
 	Notes       []string
 	Abstracted  map[string]int
 	ExtUsed     map[string]int
+	Assumed     []string
 	Serves      []string
 	GenTime     float64
 }
@@ -35,6 +36,7 @@ func verifyUnit(p *Prog, fi *FuncInfo) (res *UnitResult) {
 		res.Notes = x.notes
 		res.Abstracted = x.abstract
 		res.ExtUsed = x.extUsed
+		res.Assumed = x.assumed
 		if r := recover(); r != nil {
 			if u, ok := r.(unsupportedErr); ok {
 				res.Unsupported = u.msg
@@ -82,6 +84,11 @@ func verifyUnit(p *Prog, fi *FuncInfo) (res *UnitResult) {
 	for _, r := range fi.Requires {
 		st.assume(x.evalSpec(st, r.Expr))
 	}
+	// free preconditions: assumed here, not demanded from callers
+	for _, r := range fi.Assumes {
+		st.assume(x.evalSpec(st, r.Expr))
+		x.assumed = append(x.assumed, fmt.Sprintf("%s assumes (free precondition) %s", fi.Name(), x.nodeText(r.Expr)))
+	}
 	if fi.ReplayText != nil {
 		x.replayText = x.evalSpec(st.clone(), fi.ReplayText)
 		if sl, ok := x.typeOf(fi.ReplayText).Underlying().(*types.Slice); ok {
@@ -101,7 +108,16 @@ func verifyUnit(p *Prog, fi *FuncInfo) (res *UnitResult) {
 	}
 	if fi.HasMod {
 		x.hasMod = true
-		x.modLocs, x.modEl = x.evalModifies(st, fi)
+		locs, el := x.evalModifies(st, fi)
+		x.modHeaps = map[string]bool{}
+		for _, l := range locs {
+			if l.ref == nil {
+				x.modHeaps[l.heap] = true
+			} else {
+				x.modLocs = append(x.modLocs, l)
+			}
+		}
+		x.modEl = el
 	}
 	if len(fi.Decreases) > 0 {
 		x.ghostDec = x.evalDecreases(st, fi.Decreases)
